@@ -1964,6 +1964,20 @@ int EGLPNUM_TYPENAME_ILLlib_chgsense (
 	EGLPNUM_TYPENAME_ILLlpdata *qslp = lp->O;
 	EGLPNUM_TYPENAME_ILLmatrix *A = &(lp->O->A);
 
+	/* validate the whole list first: row indices were not checked at all, and
+	 * an illegal sense was only noticed after earlier entries had been applied */
+	for (i = 0; i < num; i++)
+	{
+		if (rowlist[i] < 0 || rowlist[i] >= qslp->nrows ||
+				(sense[i] != 'L' && sense[i] != 'G' && sense[i] != 'E' && sense[i] != 'R'))
+		{
+			QSlog("EGLPNUM_TYPENAME_ILLlib_chgsense called with bad entry %d: row %d, sense %c",
+									i, rowlist[i], sense[i]);
+			rval = 1;
+			ILL_CLEANUP;
+		}
+	}
+
 	for (i = 0; i < num; i++)
 	{
 		j = qslp->rowmap[rowlist[i]];
